@@ -56,6 +56,7 @@ type c15Case struct {
 	SSym     int       `json:"ssym"`  // the set nonterminal in g (-1 if none)
 	SSym0    int       `json:"ssym0"` // ... in g0
 	SX0      *sxExpr   `json:"sx0"`
+	LaHosts  [][2]int  `json:"laHosts"` // [host nonterminal, lookahead target] (compiled numbering)
 	AfterErr []int     `json:"afterErr"`
 	ErrSym   int       `json:"errSym"`
 	Usable   bool      `json:"usable"`
@@ -221,6 +222,7 @@ func c15Exec(c *c15Case) {
 	orig, _ := json.Marshal(c)
 	c.Orig = string(orig)
 	c.AfterErr = []int{}
+	c.LaHosts = [][2]int{}
 	c.G.Rules, c.G0.Rules = []jsRule{}, []jsRule{}
 	c.SSym, c.SSym0, c.ErrSym, c.Start, c.Start0 = -1, -1, -1, -1, -1
 	for i := range c.Named {
@@ -260,6 +262,19 @@ func c15Exec(c *c15Case) {
 	c.SX0.rewrite(by0)
 	c.SSym0 = setSym(g0)
 	c.Start0 = by0[sgName(c.InputNs[0])]
+	for _, nt := range c.Src {
+		var walk func(e *sgExpr)
+		walk = func(e *sgExpr) {
+			if e.K == "la" {
+				c.LaHosts = append(c.LaHosts, [2]int{by0[sgName(nt.Sym)], by0[sgName(e.S)]})
+			}
+			for _, s := range e.Sub {
+				walk(s)
+			}
+		}
+		walk(nt.E)
+	}
+
 	if (c.Host >= 0) != (c.SSym0 >= 0) {
 		c.Err = "twin: set nonterminal not identified"
 		return
@@ -350,6 +365,30 @@ func sxGen(r *rand.Rand, d, nterms, nnts, nnamed int, allowNot bool) *sxExpr {
 	}
 }
 
+func sgNonNullable(e *sgExpr) bool {
+	switch e.K {
+	case "t":
+		return true
+	case "seq":
+		for _, s := range e.Sub {
+			if sgNonNullable(s) {
+				return true
+			}
+		}
+		return false
+	case "alt":
+		for _, s := range e.Sub {
+			if !sgNonNullable(s) {
+				return false
+			}
+		}
+		return len(e.Sub) > 0
+	case "list":
+		return e.Plus && sgNonNullable(e.Sub[0])
+	}
+	return false
+}
+
 func stripSets(e *sgExpr, r *rand.Rand, nterms int) {
 	if e.K == "set" || e.K == "la" {
 		e.K, e.S, e.C = "t", 1+r.Intn(nterms), nil
@@ -384,6 +423,23 @@ func c15Random(args []string) error {
 		c.InputNs = []int{0}
 		if nnts > 1 && r.Intn(4) == 0 {
 			c.InputNs = append(c.InputNs, 1)
+		}
+		if r.Intn(4) == 0 {
+			// a nonterminal that is referenced only from a lookahead predicate (positive or negated) of a reachable rule
+			la := len(c.Src)
+			e := sgGen(r, 1, nt, nnts, false)
+			stripSets(e, r, nt)
+			if !sgNonNullable(e) {
+				e = &sgExpr{K: "seq", Sub: []*sgExpr{{K: "t", S: 1 + r.Intn(nt)}, e}}
+			}
+			c.Src = append(c.Src, sgNonterm{Sym: la, E: e})
+			op := ""
+			if r.Intn(2) == 0 {
+				op = "not"
+			}
+			host := c.Src[0].E
+			c.Src[0].E = &sgExpr{K: "seq", Sub: []*sgExpr{{K: "la", S: la, Op: op}, {K: "t", S: 1 + r.Intn(nt)}, host}}
+			nnts++
 		}
 		nnamed := r.Intn(4)
 		recursive := r.Intn(3) == 0 // named sets may refer to any named set, else only to earlier ones
